@@ -32,6 +32,10 @@ Definition readonly_whitelist : list (string * string) :=
     ("html.singleQuoteEntityBytes", "alias:assign-rhs");
     ("xml.doubleQuoteEntityBytes", "alias:assign-rhs");
     ("xml.singleQuoteEntityBytes", "alias:assign-rhs");
+    ("html.doubleQuoteEntityBytes", "via local escapedQuote: copy-src");
+    ("html.singleQuoteEntityBytes", "via local escapedQuote: copy-src");
+    ("xml.doubleQuoteEntityBytes", "via local escapedQuote: copy-src");
+    ("xml.singleQuoteEntityBytes", "via local escapedQuote: copy-src");
     ("xml.ampEntityBytes", "copy-src");
     ("xml.ltEntityBytes", "copy-src");
     (* sentinel errors: wrapped by fmt.Errorf("%w") / returned; an error value is never written through *)
@@ -58,7 +62,14 @@ Definition readonly_whitelist : list (string * string) :=
     (* DataURI: the default media type "text/plain" is returned to the caller as the mediatype result
        (API hazard, named in props.d/C20.json: a caller that modifies the returned slice in place would
        modify the shared default; the library itself never writes it) *)
-    ("parse.textMimeBytes", "alias:assign-rhs") ].
+    ("parse.textMimeBytes", "alias:assign-rhs");
+    (* T5 follows the local variable `mediatype` flow-insensitively: the two appends and the re-slice
+       `mediatype = mediatype[:len-1]` precede, in the same loop iteration, the assignment
+       `mediatype = textMimeBytes`, after which the function returns in the same block without touching
+       it again; so no append ever has the shared slice as its destination *)
+    ("parse.textMimeBytes", "via local mediatype: WRITE append-dst");
+    ("parse.textMimeBytes", "via local mediatype: alias:assign-rhs");
+    ("parse.textMimeBytes", "via local mediatype: alias:return") ].
 
 Definition pair_eqb (a b : string * string) : bool := String.eqb (fst a) (fst b) && String.eqb (snd a) (snd b).
 
